@@ -170,8 +170,8 @@ static Struc genStruc(int ndim, int nvar, double L, const std::vector<int>& allo
   s.range = L * G::lu(rlo, rhi);
   s.param = 1.;
   if (s.type == S_BESSELJ) s.param = G::r(4, 8, 4);                 // nu in [1,2]: valid up to 3-D (nu >= d/2-1)
-  if (s.type == S_MATERN) s.param = G::pick<double>({0.3, 0.5, 1., 1.5, 2.5});
-  if (s.type == S_STABLE) s.param = G::pick<double>({0.4, 1., 1.5, 2.});
+  if (s.type == S_MATERN) s.param = G::pick<double>({0.5, 1., 1.5, 2.5});
+  if (s.type == S_STABLE) s.param = G::pick<double>({1., 1.5, 2.});
   s.ratio.assign((size_t)ndim, 1.);
   if (aniso && ndim > 1 && s.type != S_NUGGET)
   {
@@ -369,7 +369,7 @@ static TbCase genTb(bool condOnly)
   c.nbsimu = G::i(1, 4);
   c.nbtuba = G::pct(15) ? G::i(1, 3) : G::sz(1, 200);
   c.seed = G::seed();
-  do { c.seed2 = G::seed(); } while (c.seed2 == c.seed);
+  c.seed2 = G::seed(); if (c.seed2 == c.seed) c.seed2 = c.seed % 20000158 + 1;
   if (c.cond)
   {
     int nd = G::sz(1, std::min(condOnly ? 25 : 20, std::max(1, nt - 1)));
@@ -580,7 +580,7 @@ static void runTbCond(const TbCase& c, Ctx& ctx)
       checked = true;
       if (std::fabs(v - z) <= tol) continue;
       std::string key;
-      if (c.T.grid) key = "cond:grid";
+      if (c.T.grid) key = (nd == 1) ? "cond:grid:single-datum" : "cond:grid";
       else if (t < nd && t != k && sameBits(v, c.z[(size_t)t])) key = "cond:points:overwritten";
       else if (t != k && nugget) key = "cond:points:nugget";
       else key = "cond:points";
@@ -629,7 +629,7 @@ static FftCase genFft()
   }
   c.nbsimu = G::pct(55) ? 1 : G::i(2, 4);
   c.seed = G::seed();
-  do { c.seed2 = G::seed(); } while (c.seed2 == c.seed);
+  c.seed2 = G::seed(); if (c.seed2 == c.seed) c.seed2 = c.seed % 20000158 + 1;
   c.aliasing = G::pct(70) ? 1 : 0;
   c.percent = G::pick<double>({0.1, 1., 5.});
   return c;
@@ -743,7 +743,7 @@ static SpdeCase genSpde()
   }
   c.nbsimu = G::i(1, 3);
   c.seed = G::seed();
-  do { c.seed2 = G::seed(); } while (c.seed2 == c.seed);
+  c.seed2 = G::seed(); if (c.seed2 == c.seed) c.seed2 = c.seed % 20000158 + 1;
   return c;
 }
 static int callSpde(const SpdeCase& c, int seed, Cols& out)
@@ -816,7 +816,7 @@ static SpecCase genSpec()
   c.nbsimu = G::i(1, 4);
   c.ns = G::pct(15) ? G::i(1, 3) : G::sz(1, 100);
   c.seed = G::seed();
-  do { c.seed2 = G::seed(); } while (c.seed2 == c.seed);
+  c.seed2 = G::seed(); if (c.seed2 == c.seed) c.seed2 = c.seed % 20000158 + 1;
   return c;
 }
 static int callSpec(const SpecCase& c, int seed, Cols& out)
@@ -1015,7 +1015,7 @@ static GibbsCase genGibbs()
   c.multiMono = G::pct(25) ? 1 : 0;
   c.norm = G::pct(70) ? 1 : 0;
   c.seed = G::seed();
-  do { c.seed2 = G::seed(); } while (c.seed2 == c.seed);
+  c.seed2 = G::seed(); if (c.seed2 == c.seed) c.seed2 = c.seed % 20000158 + 1;
   return c;
 }
 static int callGibbs(const GibbsCase& c, int seed, Cols& out)
@@ -1209,7 +1209,7 @@ static PgsCase genPgs()
   c.niter = c.nburn + 2 + G::i(0, 20);
   c.gaus = G::pct(50) ? 1 : 0;
   c.seed = G::seed();
-  do { c.seed2 = G::seed(); } while (c.seed2 == c.seed);
+  c.seed2 = G::seed(); if (c.seed2 == c.seed) c.seed2 = c.seed % 20000158 + 1;
   return c;
 }
 struct PgsWorld
@@ -1274,7 +1274,7 @@ static void runPgs(const PgsCase& c, Ctx& ctx)
   const double ttol = 1e-4; // the library's quantile function is accurate to ~1e-6
   bool checked = false;
   int nd = (int)c.place.size();
-  const std::string multi = (ngrf == 2 && c.nbsimu > 1) ? ":2grf-multisimu" : "";
+  const std::string pk = (ngrf == 2 && c.nbsimu > 1) ? "pgs:2grf-multisimu:" : "pgs:";
   if (c.cond)
   {
     if (c.gaus) w.rule->setProportions(toVD(c.props));
@@ -1288,7 +1288,7 @@ static void runPgs(const PgsCase& c, Ctx& ctx)
         {
           double got = a[(size_t)s][(size_t)t];
           if (got != (double)f)
-          { ctx.fail("pgs:data-facies" + multi, fmt("simulation %d at the node of datum %d: facies %g, observed %d", s + 1, k, got, f)); return; }
+          { ctx.fail(pk + "data-facies", fmt("simulation %d at the node of datum %d: facies %g, observed %d", s + 1, k, got, f)); return; }
           continue;
         }
         double y[2] = {a[(size_t)s][(size_t)t], ngrf == 2 ? a[(size_t)(c.nbsimu + s)][(size_t)t] : 0.};
@@ -1297,14 +1297,14 @@ static void runPgs(const PgsCase& c, Ctx& ctx)
           double lo = qnorm(rect[(size_t)(f - 1)].c[2 * g]), hi = qnorm(rect[(size_t)(f - 1)].c[2 * g + 1]);
           if (!(y[g] >= lo - ttol && y[g] <= hi + ttol))
           {
-            ctx.fail("pgs:data-gauss" + multi, fmt("simulation %d, gaussian %d at the node of datum %d (facies %d) = %.17g outside [%g, %g]",
+            ctx.fail(pk + "data-gauss", fmt("simulation %d, gaussian %d at the node of datum %d (facies %d) = %.17g outside [%g, %g]",
                                                    s + 1, g + 1, k, f, y[g], lo, hi));
             return;
           }
         }
         int flib = w.rule->getFaciesFromGaussian(y[0], y[1]);
         if (flib != f)
-        { ctx.fail("pgs:data-gauss-rule" + multi, fmt("simulation %d: gaussians (%.17g, %.17g) at datum %d give facies %d, observed %d", s + 1, y[0], y[1], k, flib, f)); return; }
+        { ctx.fail(pk + "data-gauss-rule", fmt("simulation %d: gaussians (%.17g, %.17g) at datum %d give facies %d, observed %d", s + 1, y[0], y[1], k, flib, f)); return; }
       }
     }
   }
